@@ -198,12 +198,9 @@ def recvStep (S : Sys) (c : Config) (i : Nat) (t : Thread) (ch : Chan) (k : List
       some { (c.set i { t with prog := k }) with cnt := fun x => if x = ch then c.cnt ch - 1 else c.cnt x }
     else none
 
-/-- One step of thread `i`; `n` chooses the branch of an `alt`, the arm of a `sel`, and between
+/-- One step of thread `i`, whose record is `t`; `n` chooses the branch of an `alt`, the arm of a `sel`, and between
     leaving (0) and repeating a loop; `p` chooses the request a receive takes. `none`: no such step. -/
-def step (S : Sys) (c : Config) (i n p : Nat) : Option Config :=
-  match c.threads[i]? with
-  | none => none
-  | some t =>
+def stepT (S : Sys) (c : Config) (i n p : Nat) (t : Thread) : Option Config :=
     match t.prog with
     | [] => none
     | .call f :: k => some (c.set i { t with prog := S.bodyOf f ++ k })
@@ -274,6 +271,11 @@ def step (S : Sys) (c : Config) (i n p : Nat) : Option Config :=
                 some ((c.set p { tp with st := .replied r }).set i { t with prog := k, peer := none })
             else none   -- the buffer is full, or the requester is gone: treated as blocked (conservative)
         else none
+
+def step (S : Sys) (c : Config) (i n p : Nat) : Option Config :=
+  match c.threads[i]? with
+  | none => none
+  | some t => stepT S c i n p t
 
 /-- reachability -/
 inductive Reach (S : Sys) (c₀ : Config) : Config → Prop where
